@@ -32,7 +32,7 @@ class MinEngine:
 
     def gen(self, rng: random.Random, prop, tier, run_index):
         cfg = {
-            'cuts': 'faithful' if rng.random() < 0.6 else 'adversarial',
+            'cuts': 'faithful' if rng.random() < 0.5 else 'adversarial',
             'sat_model_order': rng.choice(('ascending', 'ascending', 'shuffled')),
             'uuid_order': rng.choice(('asc', 'desc', 'random')),
             'timeout_rate': rng.choice((0.0, 0.0, 0.05, 0.25, 0.6, 1.0)),
@@ -102,6 +102,11 @@ class MinEngine:
         for _ in range(rng.randint(2, 4)):
             a, b = rng.sample(pool, 2) if len(pool) >= 2 else (pool[0], pool[0])
             c = rng.choice(pool)
+            if outs and rng.random() < 0.7:
+                # nest: the new wasteful block reads the previous one
+                a = outs[-1]
+                if b == a:
+                    b = rng.choice(inputs)
             style = rng.choice(('xor3', 'xnor3', 'and-or', 'mux', 'double-neg', 'maj'))
             if style == 'xor3':
                 o = new('AND', [new('OR', [a, b]), new('NAND', [a, b])])
@@ -143,7 +148,7 @@ class MinEngine:
             st.bump('result-fed-back')
         else:
             dense = rng.random() < 0.25
-            if rng.random() < 0.2:
+            if rng.random() < 0.3:
                 net = self.wasteful_net(rng)
                 st.bump('wasteful-circuit')
             elif dense:
